@@ -226,6 +226,109 @@ def run(rep: Report, prog: Program, tier: str) -> None:
         else:
             rep.fail(mk_finding(prog, PROP, "C08-PAD", par, par.node, f"{desc}: parse_packet gives {got}", construct=f"bundle {l1},{l2}"))
 
+    # ---------------- C08-ROUND
+    rep.rule("C08-ROUND", "every chunk / parameter class survives serialise -> parse with representative field values", min_instances=30)
+    from .objhook import ClassRef, make_hook, new as mknew
+
+    def extra(call: ast.Call, evl: Evaluator) -> Any:
+        name = unparse(call.func)
+        if name == "crc32c":
+            from google_crc32c import value as crc
+            return crc(evl.ev(call.args[0]))
+        if name == "cast" and len(call.args) == 2:
+            return evl.ev(call.args[1])
+        return NotImplemented
+    oh = make_hook(prog, extra)
+    evo = Evaluator(prog, mod, None, {}, oh)
+    ser_f, par_f = prog.func(f"{M}.serialize_packet"), prog.func(f"{M}.parse_packet")
+
+    def fields_of(o: Any) -> Dict[str, Any]:
+        return {k: v for k, v in vars(o).items() if k != "__cls__" and not k.startswith("_")}
+
+    def chunk(cls: str, **kw: Any) -> Any:
+        o = oh.instantiate(prog.cls(f"{M}.{cls}"), [], {}, evo)
+        for k, v in kw.items():
+            setattr(o, k, v)
+        return o
+    big32, big16 = 0xFFFFFFFE, 0xFFFE
+    reps: List[Tuple[str, Any]] = []
+    for fl in (0, 3, 7):
+        for ud in (b"x", b"abcd", b"abcde", bytes(range(13))):
+            reps.append((f"DataChunk flags={fl} len={len(ud)}", chunk("DataChunk", flags=fl, tsn=big32, stream_id=big16, stream_seq=1, protocol=51, user_data=ud)))
+    for cls in ("InitChunk", "InitAckChunk"):
+        for params in ([], [(7, b"cookie")], [(7, b"cookie12"), (0x8008, b"\xc0"), (9, b"")]):
+            reps.append((f"{cls} {len(params)} params", chunk(cls, flags=0, initiate_tag=big32, advertised_rwnd=131072, outbound_streams=big16, inbound_streams=2,
+                                                               initial_tsn=1, params=list(params))))
+    for fl in (0, 1):
+        for gaps, dups in (([], []), ([(2, 3)], []), ([(2, 3), (5, 5), (7, 65535)], [1, big32, 3]), ([], [9])):
+            reps.append((f"SackChunk flags={fl} gaps={len(gaps)} dups={len(dups)}", chunk("SackChunk", flags=fl, cumulative_tsn=big32, advertised_rwnd=7, gaps=list(gaps), duplicates=list(dups))))
+    for streams in ([], [(1, 2)], [(1, 2), (big16, 0), (3, 4)]):
+        reps.append((f"ForwardTsnChunk {len(streams)} streams", chunk("ForwardTsnChunk", flags=0, cumulative_tsn=big32, streams=list(streams))))
+    reps.append(("ShutdownChunk", chunk("ShutdownChunk", flags=0, cumulative_tsn=big32)))
+    for cls in ("AbortChunk", "ErrorChunk", "HeartbeatChunk", "HeartbeatAckChunk", "ReconfigChunk"):
+        for fl, params in ((0, []), (1, [(1, b"abc")]), (0, [(13, b"abcd"), (16, b""), (14, b"abcdefg")])):
+            reps.append((f"{cls} flags={fl} {len(params)} params", chunk(cls, flags=fl, params=list(params))))
+    for cls in ("CookieEchoChunk", "CookieAckChunk", "ShutdownAckChunk", "ShutdownCompleteChunk"):
+        for fl, body in ((0, b""), (1, b"cookie!"), (0, b"12345678")):
+            reps.append((f"{cls} flags={fl} body={len(body)}", chunk(cls, flags=fl, body=body)))
+    seen_cls = set()
+    for label, c in reps:
+        seen_cls.add(c.__cls__.name)
+        try:
+            raw = evo.call_function(ser_f, [5000, 5001, big32, c])
+            sp, dp, tag, chunks = evo.call_function(par_f, [raw])
+        except Raised as ex:
+            rep.fail(mk_finding(prog, PROP, "C08-ROUND", par_f, getattr(ex, "node", None), f"{label}: serialise/parse raises {ex.name}", construct=f"round {c.__cls__.name} raises"))
+            continue
+        except Unknown as ex:
+            raise AnalysisError(f"C08-ROUND cannot evaluate {label}: {ex}")
+        problems = []
+        if (sp, dp, tag) != (5000, 5001, big32):
+            problems.append(f"header read back as {(sp, dp, tag)}")
+        if len(chunks) != 1 or chunks[0].__cls__ is not c.__cls__:
+            problems.append(f"parsed into {[x.__cls__.name for x in chunks]}")
+        else:
+            a, b = fields_of(c), fields_of(chunks[0])
+            a.pop("body", None), b.pop("body", None)
+            norm_ = lambda d: {k: ([tuple(x) if isinstance(x, (list, tuple)) else x for x in v] if isinstance(v, list) else v) for k, v in d.items()}  # noqa: E731
+            if norm_(a) != norm_(b):
+                diffk = [k for k in sorted(set(a) | set(b)) if norm_(a).get(k) != norm_(b).get(k)]
+                problems.append("field(s) " + ", ".join(f"{k}: wrote {a.get(k)!r}, read {b.get(k)!r}" for k in diffk))
+            try:
+                again = oh.to_bytes(chunks[0]) if hasattr(oh, "to_bytes") else evo.ev(ast.Call(func=ast.Name(id="bytes", ctx=ast.Load()), args=[ast.Name(id="__c", ctx=ast.Load())], keywords=[]))
+            except Exception:
+                again = None
+        if problems:
+            wr = prog.find_method(c.__cls__, "__bytes__") or ser_f
+            rep.fail(mk_finding(prog, PROP, "C08-ROUND", wr, wr.node, f"{label}: " + "; ".join(problems), construct=f"round {c.__cls__.name} " + problems[0].split(":")[0][:50]))
+        else:
+            rep.ok("C08-ROUND", label, sample=f"{len(raw)} bytes, same class and field values back")
+    missing_cls = {ci.name for ci in prog.subclasses(prog.cls(f"{M}.Chunk")) if not ci.name.startswith("Base")} - seen_cls
+    if missing_cls:
+        raise AnalysisError(f"C08-ROUND has no representative for chunk class(es) {sorted(missing_cls)}")
+    # RE-CONFIG parameters
+    P = [("StreamResetOutgoingParam", [dict(request_sequence=big32, response_sequence=1, last_tsn=2, streams=s_) for s_ in ([], [1], [1, 3, 5], [big16, 0, 7, 9])]),
+         ("StreamAddOutgoingParam", [dict(request_sequence=big32, new_streams=n_) for n_ in (1, big16)]),
+         ("StreamResetResponseParam", [dict(response_sequence=big32, result=r_) for r_ in (0, 1, big32)])]
+    for cls, kws in P:
+        ci_p = prog.cls(f"{M}.{cls}")
+        for kw in kws:
+            o = mknew(prog, oh, f"{M}.{cls}", **{k: (list(v) if isinstance(v, list) else v) for k, v in kw.items()})
+            try:
+                raw = oh.run_method(prog.find_method(ci_p, "__bytes__"), o, [], {})
+                back = oh.run_method(prog.find_method(ci_p, "parse"), ClassRef(ci_p), [raw], {})
+                raw2 = oh.run_method(prog.find_method(ci_p, "__bytes__"), back, [], {})
+            except Raised as ex:
+                rep.fail(mk_finding(prog, PROP, "C08-ROUND", prog.find_method(ci_p, "parse"), None, f"{cls}{kw}: raises {ex.name}", construct=f"round {cls} raises"))
+                continue
+            except Unknown as ex:
+                raise AnalysisError(f"C08-ROUND cannot evaluate {cls}: {ex}")
+            if fields_of(back) == fields_of(o) and raw2 == raw:
+                rep.ok("C08-ROUND", f"{cls} {kw}", sample=f"{len(raw)} bytes")
+            else:
+                pf_ = prog.find_method(ci_p, "parse")
+                rep.fail(mk_finding(prog, PROP, "C08-ROUND", pf_, pf_.node, f"{cls}: wrote {fields_of(o)}, read back {fields_of(back)}", construct=f"round {cls}"))
+
     # ---------------- C08-TYPES
     rep.rule("C08-TYPES", "chunk and parameter registries", min_instances=3)
     reg = mod.assigns.get("CHUNK_CLASSES")
